@@ -12,7 +12,7 @@ CHECKS = {
     "C05": (
         "model_checking",
         "explicit-state history search over the real State: every operation sequence up to a depth replayed from scratch, deeper with cloning and pruning on canonical state; reference model compared after every operation",
-        "Every sequence over a 16-operation alphabet (appends scalar/array/broadcast/empty/with defaults, kills, compactify, item assignment incl. aliasing, "
+        "Every sequence over a 19-operation alphabet (appends scalar/array/broadcast incl. length-one arrays/empty/with defaults, refused appends, kills, compactify, item assignment incl. aliasing, "
         "in-place updates, particle-variable updates) up to depth 4/5 is replayed from scratch on a fresh State (depth 7/9 over the 5-operation core), deeper "
         "(5/7, core 9/11) incrementally with pruning on (canonical state, remaining depth), and in a reduced alphabet through the real sparse Output.write and "
         "a documented-format reader; after every operation pids, instance arrays, particle arrays and npid equal a list-based reference model.",
